@@ -9,6 +9,7 @@
 //	increment <name> | count <name> <n> | gauge <name> <v> | histogram <name> <v>
 //	up <name> | down <name> | store <name> <v>
 //	get <name>                     obs: none | some:<float token>
+//	creg <kind> <g> <n> <r> <base> concurrent first registration of r fresh names (see Do)
 //	conc <g> <item>,<item>,…       item = <i|c|u|d>*<reps>*<n>*<name>: the multiset of calls
 //	                               (Increment / Count n / Up / Down, each <reps> times) is dealt
 //	                               round-robin to <g> goroutines that start calling together (spin barrier); obs: done
@@ -119,6 +120,7 @@ func (comp) Gen(r *kit.Rng, maxLen int, tier string) kit.Case {
 		}
 	}
 	registered := make([]bool, u)
+	fresh := 0
 	var ops []string
 	reg := func(i, ty int) {
 		ops = append(ops, fmt.Sprintf("register %s %s", names[i], typeNames[ty]))
@@ -156,7 +158,7 @@ func (comp) Gen(r *kit.Rng, maxLen int, tier string) kit.Case {
 	n := 4 + r.Intn(maxLen)
 	for len(ops) < n {
 		i := r.Intn(u)
-		switch r.Pick(7, 52, 4, 29, 8) {
+		switch r.Pick(7, 50, 4, 28, 7, 4) {
 		case 0: // register: mostly the same type again (sampler / cache / transmission re-created)
 			ty := intended[i]
 			if r.Chance(8) {
@@ -195,6 +197,11 @@ func (comp) Gen(r *kit.Rng, maxLen int, tier string) kit.Case {
 			for x := 0; x < u; x++ {
 				ops = append(ops, "get "+names[x])
 			}
+		case 5: // concurrent FIRST registration of fresh names, each goroutine registers then updates
+			kind := []string{"counter", "counter", "updown", "gauge"}[r.Intn(4)]
+			g := []int{2, 4, 4, 8}[r.Intn(4)]
+			fresh++
+			ops = append(ops, fmt.Sprintf("creg %s %d %d %d fresh%d", kind, g, 1+r.Intn(20), 4+r.Intn(9), fresh))
 		}
 	}
 	for x := 0; x < u; x++ {
@@ -340,6 +347,64 @@ func (r *runner) Do(op []string) (string, bool) {
 			return "none", true
 		}
 		return "some:" + fmtFloat(v), true
+	case "creg":
+		// creg <kind> <g> <n> <r> <base>: for each of r fresh names <base>.<j>, g goroutines start
+		// together; each does Register(name, kind) and then n updates (Increment / Up / Gauge(w+1)).
+		// obs: the Get of every fresh name at quiescence, comma separated; for a gauge `in` when the
+		// reading is one of the values written (1..g), else out:<token>.
+		if len(op) != 6 {
+			return "bad-op", true
+		}
+		ty, ok := metricType(op[1])
+		g, e1 := strconv.Atoi(op[2])
+		n, e2 := strconv.Atoi(op[3])
+		rr, e3 := strconv.Atoi(op[4])
+		if !ok || e1 != nil || e2 != nil || e3 != nil || g < 1 || g > 64 || n < 0 || n > 100000 || rr < 1 || rr > 1000 {
+			return "bad-op", true
+		}
+		base := kit.Dec(op[5])
+		var outs []string
+		for j := 0; j < rr; j++ {
+			nm := base + "." + strconv.Itoa(j)
+			var ready atomic.Int32
+			var wg sync.WaitGroup
+			for w := 0; w < g; w++ {
+				wg.Add(1)
+				go func(w int) {
+					defer wg.Done()
+					ready.Add(1)
+					for ready.Load() < int32(g) {
+						runtime.Gosched()
+					}
+					r.m.Register(metrics.Metadata{Name: nm, Type: ty, Unit: metrics.Dimensionless, Description: "verif " + op[1]})
+					for i := 0; i < n; i++ {
+						switch ty {
+						case metrics.Counter:
+							r.m.Increment(nm)
+						case metrics.UpDown:
+							r.m.Up(nm)
+						case metrics.Gauge:
+							r.m.Gauge(nm, float64(w+1))
+						}
+					}
+				}(w)
+			}
+			wg.Wait()
+			v, ok := r.m.Get(nm)
+			switch {
+			case !ok:
+				outs = append(outs, "none")
+			case ty == metrics.Gauge && n > 0:
+				if v == math.Trunc(v) && v >= 1 && v <= float64(g) {
+					outs = append(outs, "in")
+				} else {
+					outs = append(outs, "out:"+fmtFloat(v))
+				}
+			default:
+				outs = append(outs, "some:"+fmtFloat(v))
+			}
+		}
+		return strings.Join(outs, ","), true
 	case "conc":
 		if len(op) != 3 {
 			return "bad-op", true
